@@ -35,6 +35,19 @@ CLAIMED = {
              "NOT decided. Assumes std::vector move leaves the source empty and that users do not mutate the map through "
              "the non-const accessor.",
     ),
+    "C07": dict(
+        category="other",
+        design_ref="DESIGN.md section 3 / C07",
+        technique="static analysis: must-pass-through / guard-dominance rules on the clang CFG; truth tables of the "
+                  "deciding predicates compared with the formulas fixed by the property text",
+        text="Decides the structural clauses: 4-tuple key coverage and normalisation; announce-once (insertion => callback on "
+             "every path); terminate-once-and-forget (callback => erase, erase only when finished/limits/idle, no iterator "
+             "use after erase); limits compared after every packet; routing by destination address AND port; and the "
+             "formulas finished <=> RST|RST|(FIN&FIN), create <=> (SYN&!ACK)|(attach&data), terminate <=> chunks>max|bytes>max, "
+             "FIN/RST always reach FIN_SENT/RST_SENT - each checked on its complete truth table.",
+        note="NOT decided: equality of the callback trace with a reference connection table under arbitrary interleavings; "
+             "reassembly per direction is C06. User callbacks are assumed not to re-enter the follower.",
+    ),
     "C08": dict(
         category="other",
         design_ref="DESIGN.md section 3 / C08",
